@@ -88,4 +88,18 @@ PROPS = {
                                   "encoding/hex, bytes.Buffer, io.ReadFull, encoding/binary (Go stdlib) modelled; io.ReadFull's loop as readFullChunks"],
         assumptions=["SRID within [0, 2^32)", "int is 64 bits (count*stride cannot overflow)"],
     ),
+    "C04": dict(
+        modules=["GeomVerif.Properties.C04"],
+        n_quick=20000, n_thorough=300000, thorough_seeds=4, min_theorems=6,
+        rule="byte strings: valid WKB / WKB-NaN / EWKB encodings of random geometries (both byte orders) mutated by truncation, bit flips, splices, "
+             "forged 32-bit fields at count/type offsets (0..2^32-1), forged type words, trailing garbage, and short random bytes; per-level limits "
+             "drawn from {disabled, 0, 1, 3, 100} (count forgery only when all three limits are configured, as the property says). Go decodes with "
+             "the limits set, re-encodes and decodes again, and measures runtime.MemStats.TotalAlloc around the decode. Oracle: no panic; decoded "
+             "value structurally well formed; every count within its limit; decode(encode(decode x)) = decode x; allocation <= 16 KiB + len*(512 + "
+             "64*max limit). non-trivial = byte string longer than 9 bytes",
+        nontrivial=lambda op, inp: len(inp) > 40,
+        trusted_base=TB_COMMON + ["modelled: the readers of wkbcommon/wkb/ewkb with a counter of elements passed to make()",
+                                  "Go's measured TotalAlloc is a measurement, labelled as a test of the allocation bound, not a proof about the Go runtime"],
+        assumptions=["global wkbcommon.MaxGeometryElements is set and restored by the harness around each decode (single goroutine)"],
+    ),
 }
